@@ -2,7 +2,7 @@
 import itertools, json
 from xvlib import *
 
-HCONSTS = {'AbsInit': '<-DequeInit', 'AbsCfg': '<-DequeCfg', 'AbsStep': '<-DequeStep', 'AbsFinal': '<-DequeFinal'}
+HCONSTS = {'AbsInit': '<-DequeInit', 'AbsCfg': '<-DequeCfg', 'AbsStep': '<-DequeStep', 'AbsFinal': '<-DequeFinal', 'AbsEv': '<-NoEv'}
 
 
 def mc_consts(**kw):
